@@ -444,6 +444,16 @@ class SArr:
     def sum(self, axis=None, **kw):
         return np_sum(self, axis)
 
+    def mean(self, axis=None, **kw):
+        """mean over a CONCRETE axis: sum / extent (exact over the reals)"""
+        if axis is None:
+            raise Unsupported("mean over all axes")
+        n = self._shape[axis % self.ndim]
+        if not is_conc(n):
+            raise Unsupported("mean over a symbolic axis")
+        s_ = np_sum(self, axis=axis)
+        return s_ / int(n)
+
     def max(self, axis=None):
         return np_max(self, axis)
 
